@@ -30,6 +30,7 @@ type replayRec struct {
 	Gated  *gatedCfg       `json:"gated,omitempty"`
 	Group  *groupCfg       `json:"group,omitempty"`
 	Stress *stressCfg      `json:"stress,omitempty"`
+	RC     *rcCfg          `json:"rcycle,omitempty"`
 	Detail json.RawMessage `json:"detail,omitempty"`
 }
 
@@ -48,7 +49,6 @@ func reportGated(c *vf.Ctx, r gatedResult) {
 		return
 	}
 	for _, cl := range workerClasses(r.Cfg.Workers) {
-		c.Count("tasks_cancelled_by_leftover_signal_while_running", r.CancelledWhileRunning)
 		c.Count("gated_workers_class:"+cl, 1)
 	}
 	if r.Cfg.Kind == "options" {
@@ -126,6 +126,49 @@ func reportGroup(c *vf.Ctx, r groupResult) {
 		}
 		seen[f.FP] = true
 		c.Violation(f.FP, f.What+" [tree "+r.Tree+"]", replayRec{Mode: "group", Group: &r.Cfg, Detail: detail(r)})
+	}
+}
+
+func reportRC(c *vf.Ctx, r rcResult) {
+	c.Count("evaluations", 1)
+	c.Count("rc_scenarios", 1)
+	if r.Inconcl != "" {
+		c.Inconclusive("restart-cycle scenario " + r.Cfg.key() + ": " + r.Inconcl)
+		return
+	}
+	if r.Cfg.Conc {
+		c.Count("rc_scenarios_concurrent_drain", 1)
+	}
+	c.Distinct("nontrivial", r.Cfg.key())
+	c.Distinct("rc_combo", r.Cfg.combo())
+	c.Count("rc_restart_cycles", r.Cycles)
+	for k, v := range r.RestartVia {
+		c.Count("rc_restart_via:"+k, v)
+	}
+	for k, v := range r.ShutdownMode {
+		c.Count("rc_shutdown_mode:"+k, v)
+	}
+	c.Count("rc_shutdowns_with_busy_worker", r.BusyAtShutdown)
+	c.Count("rc_shutdowns_with_every_worker_busy", r.AllBusyShutdown)
+	c.Count("rc_crowd_watchers_parked", r.CrowdParked)
+	c.Count("rc_cycles_with_crowd", r.CrowdCycles)
+	c.Count("rc_wait_observers_parked", r.ObsParked)
+	c.Count("rc_wait_observers_returned", r.ObsReturned)
+	c.Count("rc_waits_parked_on_shut_down_group", r.ShutGrpParked)
+	c.Count("rc_tasks_run_by_restarted_pool", r.StrictTasks)
+	c.Count("rc_tasks_run_before_first_shutdown", r.FirstTasks)
+	c.Count("rc_submits_on_running_pool_not_accepted", r.Unaccepted)
+	c.Count("rc_group_shutdown_returned_while_busy", r.GroupShutEarly)
+	c.Count("rejected_submits", r.Rejected)
+	c.Count("recovered_submit_panics", r.Recovered)
+	c.Count("tasks_accepted", r.Accepted)
+	c.Count("tasks_ran", r.Ran)
+	c.Count("tasks_cancelled", r.Cancelled)
+	if len(r.Findings) == 0 && c.WantSample() && r.Cfg.Tree > 0 && !r.Cfg.Conc {
+		c.Sample(map[string]any{"rcycle": r.Cfg, "steps": r.Steps})
+	}
+	for _, f := range r.Findings {
+		c.Violation(f.FP, f.What+" [restart-cycle scenario "+r.Cfg.key()+"]", replayRec{Mode: "rcycle", RC: &r.Cfg, Detail: detail(r)})
 	}
 }
 
@@ -218,6 +261,23 @@ func child(c *vf.Ctx) {
 		var cfg groupCfg
 		json.Unmarshal([]byte(c.ChildArgs[0]), &cfg)
 		reportGroup(c, runGroup(cfg))
+	case "rcycle":
+		list := rcList(c.Seed, c.Quick())
+		lo, hi := atoi(c.ChildArgs[0]), min(atoi(c.ChildArgs[1]), len(list))
+		for i := lo; i < hi; i++ {
+			c.Mark(list[i].key())
+			reportRC(c, runRC(list[i]))
+		}
+	case "rcycle1":
+		var cfg rcCfg
+		json.Unmarshal([]byte(c.ChildArgs[0]), &cfg)
+		for k := 0; k < 20; k++ { // the drain races are free-running: repeat the recorded scenario
+			r := runRC(cfg)
+			reportRC(c, r)
+			if len(r.Findings) > 0 {
+				break
+			}
+		}
 	case "stress":
 		lo, hi, race := atoi(c.ChildArgs[0]), atoi(c.ChildArgs[1]), c.ChildArgs[2] == "race"
 		for i := lo; i < hi; i++ {
@@ -412,6 +472,12 @@ func run(c *vf.Ctx) {
 		case "group":
 			b, _ := json.Marshal(r.Group)
 			runChild(c, vf.ChildOpts{Name: "group1", Args: []string{string(b)}, Timeout: time.Minute})
+		case "rcycle":
+			b, _ := json.Marshal(r.RC)
+			res := runChild(c, vf.ChildOpts{Name: "rcycle1", Args: []string{string(b)}, Timeout: 3 * time.Minute})
+			if res.TimedOut || res.ExitCode != 0 {
+				childDied(c, "rcycle replay child", res)
+			}
 		case "stress":
 			b, _ := json.Marshal(r.Stress)
 			res := runChild(c, vf.ChildOpts{Name: "stress1", Args: []string{string(b)}, Race: r.Stress.Race, Timeout: 3 * time.Minute})
@@ -423,7 +489,7 @@ func run(c *vf.Ctx) {
 		}
 		return
 	}
-	c.SetRule("evaluations = gated schedules + group scenarios + stress runs. A gated schedule is one point of {kind: Submit window / dispatcher PopOrWait window / drain} x yield point x workers 1-4 x cancel-on-shutdown x preloaded running/queued tasks x release order x Submit-from-task x restart (thorough: whole space, quick: every core combination + seeded sample); it counts as non-trivial only if the gated goroutine was observed parked at the yield point (else the run is INCONCLUSIVE). Group scenarios are seeded trees (1-5 groups, 2-4 pools, gated tasks incl. tasks submitting tasks); every quiescent point checks every waiter. A stress run is non-trivial if at least one Submit call interval overlapped a Shutdown call interval (logical ticks).")
+	c.SetRule("evaluations = gated schedules + group scenarios + stress runs. A gated schedule is one point of {kind: Submit window / dispatcher PopOrWait window / drain} x yield point x workers 1-4 x cancel-on-shutdown x preloaded running/queued tasks x release order x Submit-from-task x restart (thorough: whole space, quick: every core combination + seeded sample); it counts as non-trivial only if the gated goroutine was observed parked at the yield point (else the run is INCONCLUSIVE). Group scenarios are seeded trees (1-5 groups, 2-4 pools, gated tasks incl. tasks submitting tasks); every quiescent point checks every waiter. A stress run is non-trivial if at least one Submit call interval overlapped a Shutdown call interval (logical ticks). A restart-cycle scenario is one point of worker-count class x cancel-on-shutdown x panic-on-submit x tree shape (stand-alone, group chains of depth 1-3 with a sibling pool) x scripted/concurrent drain, with seeded 2-4 Shutdown->Start cycles, shutdown mode (pool.Shutdown with busy workers, Shutdown();Start(), Group.Shutdown of an ancestor), restart mode (Start, CreatePool same/new name), crowd size and gate order.")
 
 	var wg sync.WaitGroup
 	var mu sync.Mutex
@@ -476,6 +542,20 @@ func run(c *vf.Ctx) {
 		})
 	}
 	wg.Wait() // group scenarios (their concurrent-creation half is timing sensitive) before the CPU-heavy stress children
+	// ---- restart cycles with crowds of watchers and every exported Wait* as observer
+	nRC := len(rcList(c.Seed, c.Quick()))
+	const rcChunk = 12
+	for lo := 0; lo < nRC; lo += rcChunk {
+		lo := lo
+		spawn(func() {
+			res := runChild(c, vf.ChildOpts{Name: "rcycle", Args: []string{strconv.Itoa(lo), strconv.Itoa(lo + rcChunk)}, Timeout: 15 * time.Minute})
+			if res.TimedOut || res.ExitCode != 0 {
+				childDied(c, fmt.Sprintf("rcycle child [%d..)", lo), res)
+			}
+		})
+	}
+	wg.Wait()
+	c.Count("rc_option_combinations", c.DistinctCount("rc_combo"))
 	// ---- stress, plain and -race
 	stress := func(n, per int, race bool) {
 		for lo := 0; lo < n; lo += per {
@@ -599,6 +679,18 @@ func run(c *vf.Ctx) {
 	c.Require("group_scenarios_concurrent_creation", c.Pick(500, 5000))
 	c.Require("stress_runs_submit_overlapping_shutdown", c.Pick(300, 9000))
 	c.Require("stress_runs_race_build", c.Pick(300, 6000))
+	c.Require("rc_scenarios", c.Pick(192, 1152))
+	c.Require("rc_option_combinations", 96) // 6 worker-count classes x cancel x panic-on-submit x 4 tree shapes
+	c.Require("rc_restart_cycles", c.Pick(380, 2300))
+	c.Require("rc_restart_via:start", c.Pick(100, 600))
+	c.Require("rc_restart_via:start-without-wait", c.Pick(15, 90))
+	c.Require("rc_restart_via:createpool-same-name", c.Pick(15, 90))
+	c.Require("rc_restart_via:createpool-new-name", c.Pick(15, 90))
+	c.Require("rc_shutdown_mode:group", c.Pick(100, 600))
+	c.Require("rc_shutdowns_with_every_worker_busy", c.Pick(100, 600))
+	c.Require("rc_crowd_watchers_parked", c.Pick(5000, 30000))
+	c.Require("rc_waits_parked_on_shut_down_group", c.Pick(300, 1800))
+	c.Require("rc_tasks_run_by_restarted_pool", c.Pick(5000, 30000))
 	c.Assume("a consistent runtime.Stack(all) snapshot in which every goroutine is parked on a sync primitive or channel (twice in a row, timer-free scenario) means no goroutine can ever run again")
 	c.Assume("the verif yield points are no-ops apart from blocking/yielding the calling goroutine")
 }
